@@ -515,6 +515,29 @@ def token_tables():
                 "def tokenOperator : List (String × OpKind) := " + lean_list(rows) + "\n")
 
     out.append(guarded("tokenOperator", "List (String × OpKind)", token_operator))
+
+    def pipeline():
+        # the glue: tokenize = partial_tokens_to_tokens(str_to_partial_tokens(s)?), parse_dec_or_hex, the literal arm's order of attempts
+        _, body = find_fn(toks, "tokenize")
+        t = text_of(body)
+        if t != "partial_tokens_to_tokens ( & str_to_partial_tokens ( string ) ? )":
+            raise Unrecognised("tokenize: " + t)
+        _, body = find_fn(toks, "parse_dec_or_hex")
+        t = text_of(body)
+        want = ('if let Some ( literal ) = literal . strip_prefix ( "0x" ) { NumericTypes :: Int :: from_hex_str ( literal ) } '
+                "else { NumericTypes :: Int :: from_str ( literal ) . map_err ( | _ | ( ) ) }")
+        if t != want:
+            raise Unrecognised("parse_dec_or_hex: " + t)
+        _, body = find_fn(toks, "parse_escape_sequence")
+        t = text_of(body)
+        want = ("match iter . next ( ) { Some ( '\"' ) => Ok ( '\"' ) , Some ( '\\\\' ) => Ok ( '\\\\' ) , "
+                'Some ( c ) => Err ( EvalexprError :: IllegalEscapeSequence ( format ! ( "\\\\{}" , c ) ) ) , '
+                'None => Err ( EvalexprError :: IllegalEscapeSequence ( "\\\\" . to_string ( ) ) ) , }')
+        if t != want:
+            raise Unrecognised("parse_escape_sequence: " + t)
+        return "/-- `tokenize`, `parse_dec_or_hex`, `parse_escape_sequence` have the recognised bodies -/\ndef lexerGlueRecognised : Bool := true\n"
+
+    out.append(guarded("lexerGlueRecognised", "Bool", pipeline))
     return [("TokenTables", "import EvalexprVerif.Model.Basic\n", out)]
 
 
